@@ -14,7 +14,7 @@ def run(ctx):
     ctx.tlc_stats.append(dict(name="enumerate", module="AuthFail", cfg="product of annotation values", generated=r["generated"],
                               distinct=r["distinct"], depth=r["depth"], wall_s=round(r["wall"], 1), violated=None))
     cases = core.behaviours_from_print(r["out"])
-    nbase, nextra = 10 * 4 * 2 * 3 * 2 * 3 * 2 * 2 * 2, 4 * 2 * 2 * 2 * 2 * 3
+    nbase, nextra = 10 * 4 * 2 * 3 * 2 * 3 * 2 * 2 * 2, 4 * 2 * 2 * 2 * 2 * 3 * 2
     if len(cases) != nbase + nextra - 4 * 2 * 2:
         raise Undecided("expected %d cases, TLC printed %d" % (nbase + nextra - 16, len(cases)))
     inp = ctx.path("a", "in.json")
@@ -38,14 +38,18 @@ def run(ctx):
         c = b["cs"]
         path = "".join(b["path"])
         sub = "declared-path" if path == "/app" else "sub-path"
-        if c["placement"] == "frontend":
+        if b["inv"] == "RightService":
+            sig = "RightService:%s:%s:%s" % (c["placement"], c["url"], c["oauth"])
+        elif c["placement"] == "frontend":
             sig = "FailClosed:frontend:%s:%s" % ("non-exact" if c["ptype"] != "exact" else "exact", sub)
         else:
             sig = "FailClosed:backend:%s:%s:%s" % (c["url"], c["oauth"], sub)
         if b.get("alias"):
             sig += ":through-alias"
         at_frontend = c["placement"] == "frontend" and c.get("src") == "ingress" and c.get("elder") != "backend"
-        if (c.get("src"), c.get("oprefix"), c.get("elder")) != ("ingress", "default", "none") and not at_frontend:
+        if b["inv"] == "RightService":
+            pass
+        elif (c.get("src"), c.get("oprefix"), c.get("elder")) != ("ingress", "default", "none") and not at_frontend:
             # (a guard that really is placed in the frontend has the listed flaws F5 / F41 whatever these dimensions say)
             sig += ":%s:%s:%s" % (c.get("src"), c.get("oprefix"), c.get("elder"))
         if sig in seen:
@@ -55,8 +59,9 @@ def run(ctx):
         json.dump(recs[b["id"]], open(rf, "w"), indent=1)
         d = core.save_replay(ctx, sig, [rf], dict(invariant="FailClosed", case=c, request=path))
         who = "b.local%s (b.local is the server-alias of a.local)" if b.get("alias") else "a.local%s"
-        core.classify(ctx, sig, ("FailClosed: request " + who + " reaches the protected path without a covering deny/auth-intercept; case %s; "
-                      "frontend rules %s; backend rules %s") % (path, c, [a["raw"] for a in recs[b["id"]]["front"]][:3],
+        what = (" is intercepted by a call to another service than the one its path declares; case %s; " if b["inv"] == "RightService"
+                else " reaches the protected path without a covering deny/auth-intercept; case %s; ")
+        core.classify(ctx, sig, (b["inv"] + ": request " + who + what + "frontend rules %s; backend rules %s") % (path, c, [a["raw"] for a in recs[b["id"]]["front"]][:3],
                                                                 [a["raw"] for a in recs[b["id"]]["backend"]["auth"]][:3]), d)
     guarded = sum(1 for x in recs.values() if x["front"] or x["backend"]["auth"])
     core.write_evidence(ctx, [dict(case=recs["c5"]["cs"], backend_rules=[a["raw"] for a in recs["c5"]["backend"]["auth"]],
